@@ -145,6 +145,162 @@ func (n *dnode) treeBlocks() []uint64 {
 	return out
 }
 
+// ---- the invariant of the Lean history theorems (TreeInv, Proofs/Ext4ExtInv.lean) on a decoded tree ------------
+
+func (n *dnode) firstKey() (uint32, bool) {
+	if n.depth == 0 {
+		if len(n.extents) == 0 {
+			return 0, false
+		}
+		return n.extents[0].FileBlock, true
+	}
+	if len(n.keys) == 0 {
+		return 0, false
+	}
+	return n.keys[0], true
+}
+
+// goodKids: every child one level below, its key the first file block of the child, the child a good block node
+func goodKids(n *dnode, bs int64) bool {
+	for i, k := range n.kids {
+		fk, ok := k.firstKey()
+		if k.depth+1 != n.depth || !ok || fk != n.keys[i] || !goodNode(k, bs) {
+			return false
+		}
+	}
+	return true
+}
+
+// goodNode: a node that lives in a block: fan-out of a block, not over-full, not empty, block number not 0
+func goodNode(n *dnode, bs int64) bool {
+	cnt := len(n.extents)
+	if n.depth > 0 {
+		cnt = len(n.kids)
+	}
+	if n.max != int((bs-12)/12) || cnt > n.max || cnt == 0 || n.disk == 0 {
+		return false
+	}
+	return n.depth == 0 || goodKids(n, bs)
+}
+
+// treeInv: the three components of TreeInv - the root in the inode over good nodes, strictly increasing file
+// blocks, pairwise distinct node blocks - computed independently of the Lean checker (`ext4tree.inv`)
+func treeInv(n *dnode, bs int64) (root, sorted, nodup bool) {
+	if n.depth == 0 {
+		root = n.max == 4 && n.disk == 0 && len(n.extents) <= 4
+	} else {
+		root = n.max == 4 && n.disk == 0 && len(n.kids) <= 4 && len(n.kids) > 0 && goodKids(n, bs)
+	}
+	sorted = true
+	flat := n.flat()
+	for i := 1; i < len(flat); i++ {
+		if flat[i-1].FileBlock >= flat[i].FileBlock {
+			sorted = false
+		}
+	}
+	nodup = true
+	seen := map[uint64]bool{}
+	for _, b := range n.treeBlocks() {
+		if seen[b] {
+			nodup = false
+		}
+		seen[b] = true
+	}
+	return
+}
+
+// lcgPick: a picker of its own, so that the damaged copies do not disturb the random stream of the sequences
+func lcgPick(seed uint64) func(int) int {
+	v := seed*2862933555777941757 + 3037000493
+	return func(n int) int {
+		v = v*6364136223846793005 + 1442695040888963407
+		return int((v >> 33) % uint64(n))
+	}
+}
+
+func b01(b bool) string {
+	if b {
+		return "1"
+	}
+	return "0"
+}
+
+func (n *dnode) clone() *dnode {
+	c := &dnode{disk: n.disk, max: n.max, depth: n.depth}
+	c.extents = append(c.extents, n.extents...)
+	c.keys = append(c.keys, n.keys...)
+	for _, k := range n.kids {
+		c.kids = append(c.kids, k.clone())
+	}
+	return c
+}
+
+func (n *dnode) below() []*dnode {
+	var out []*dnode
+	for _, k := range n.kids {
+		out = append(out, k)
+		out = append(out, k.below()...)
+	}
+	return out
+}
+
+// damage returns a copy of the tree with one field changed so that (most of the time) the invariant breaks
+func damage(t *dnode, pick func(int) int) (*dnode, string) {
+	c := t.clone()
+	nodes := c.below()
+	all := append([]*dnode{c}, nodes...)
+	switch k := pick(7); {
+	case k == 0 && len(nodes) > 0:
+		nodes[pick(len(nodes))].disk = 0
+		return c, "disk0"
+	case k == 1 && len(nodes) > 1:
+		i := pick(len(nodes) - 1)
+		nodes[i+1].disk = nodes[i].disk
+		return c, "dupdisk"
+	case k == 2 && c.depth > 0:
+		var ix []*dnode
+		for _, n := range all {
+			if n.depth > 0 && len(n.keys) > 0 {
+				ix = append(ix, n)
+			}
+		}
+		n := ix[pick(len(ix))]
+		n.keys[pick(len(n.keys))] += 1
+		return c, "key"
+	case k == 3:
+		var lv []*dnode
+		for _, n := range all {
+			if n.depth == 0 && len(n.extents) > 1 {
+				lv = append(lv, n)
+			}
+		}
+		if len(lv) > 0 {
+			n := lv[pick(len(lv))]
+			i := pick(len(n.extents) - 1)
+			n.extents[i], n.extents[i+1] = n.extents[i+1], n.extents[i]
+			return c, "swap"
+		}
+	case k == 4:
+		n := all[pick(len(all))]
+		n.max += 1 + pick(3)
+		return c, "max"
+	case k == 5 && len(nodes) > 0:
+		n := nodes[pick(len(nodes))]
+		if n.depth == 0 {
+			n.extents = nil
+			return c, "empty"
+		}
+	}
+	c.disk = 7 // a root that claims to live in a block
+	return c, "rootdisk"
+}
+
+// invCase emits the correspondence case of the invariant checker for one tree read from the device
+func (n *dnode) invImpl(bs int64) []string {
+	r, s, u := treeInv(n, bs)
+	return []string{"root=" + b01(r), "sorted=" + b01(s), "nodup=" + b01(u), "inv=" + b01(r && s && u)}
+}
+
 // histCases: emit the ext4tree.hist correspondence cases (the Lean driver answers them)
 const histCases = true
 
@@ -308,6 +464,19 @@ func (e *engine) deepTree(h deepCfg) {
 			c.Case(id, "ext4tree.hist", fmt.Sprintf("bs=%d", bs), "tree="+prev, fmt.Sprintf("fb=%d", round),
 				fmt.Sprintf("fdb=%d", v1.FirstDataBlock), fmt.Sprintf("bpg=%d", v1.BPG), fmt.Sprintf("sbfree=%d", sbfree), "runs="+strings.Join(runs, "/"), fullArg())
 			c.Impl(id, "tree="+cur, fmt.Sprintf("meta=%d", len(tree.treeBlocks())-prevNodes))
+		}
+		// the invariant the Lean history theorems preserve holds on the tree the library left on the device
+		if r0, s0, u0 := treeInv(tree, int64(bs)); !(r0 && s0 && u0) {
+			fail("-", fmt.Sprintf("the tree of a on the device breaks the invariant (root=%v sorted=%v nodup=%v): %s", r0, s0, u0, short(cur)))
+			return
+		}
+		if histCases && !e.fsck && c.Want(id+"/i") && (round%5 == 0 || len(tree.treeBlocks()) != prevNodes) {
+			c.Case(id+"/i", "ext4tree.inv", fmt.Sprintf("bs=%d", bs), "tree="+cur)
+			c.Impl(id+"/i", tree.invImpl(int64(bs))...)
+			dm, what := damage(tree, lcgPick(uint64(round)))
+			c.Case(id+"/id", "ext4tree.inv", fmt.Sprintf("bs=%d", bs), "tree="+dm.String())
+			c.Impl(id+"/id", dm.invImpl(int64(bs))...)
+			c.Stat("exttree.inv.damaged." + what)
 		}
 		if tree.depth == 2 && prevDepth < 2 {
 			c.Stat("ext_depth_2")
